@@ -3,6 +3,7 @@ package props
 import (
 	"fmt"
 	"sort"
+	"strconv"
 	"strings"
 	"testing"
 
@@ -19,6 +20,9 @@ import (
 
 type C09Case struct {
 	World m.WorldM `json:"world"`
+	// one structured configuration rendered in native and in JSON syntax (World unused): the
+	// position clause (list index = source order) on both renderings
+	Dual *C19Case `json:"dual,omitempty"`
 }
 
 func genC09(g gen.G) C09Case {
@@ -27,7 +31,83 @@ func genC09(g gen.G) C09Case {
 		Cfg:      gen.CfgOpts{Violations: 8, Layout: true, Typed: true},
 		MaxPaths: 1, MaxFiles: 2,
 	}
+	if g.Chance(20) {
+		d := genC19(g)
+		return C09Case{Dual: &d}
+	}
 	return C09Case{World: g.World(o)}
+}
+
+// checkC09Dual judges the position clause on a configuration rendered in both syntaxes: the
+// nested targets x.disk[0], x.disk[1], ... of one declaration are the blocks in source order
+// (their extents follow each other in the file), and disk[i].gb is the attribute written in
+// the i-th block (the generator writes gb = 10+i there).
+func checkC09Dual(c C19Case) Result {
+	var r Result
+	texts := map[string]string{"main.tf": gen.RenderNative(c.Items, ""), "main.tf.json": gen.RenderJSONLayout(c.Items, c.Layout)}
+	for _, name := range []string{"main.tf", "main.tf.json"} {
+		schema := c.Schema
+		text := texts[name]
+		wm := m.WorldM{Paths: []m.PathM{{Path: "p0", Schema: &schema, Files: []m.FileM{{Name: name, Text: text, JSON: name != "main.tf"}}}}}
+		w, pi := SafeBuild(func() *world.World { return world.Build(wm) })
+		if pi != nil {
+			r.Exclude("library-panic(C01)")
+			return r
+		}
+		var walk func(ts reference.Targets)
+		walk = func(ts reference.Targets) {
+			// siblings whose last step is a number index, by parent address
+			type el struct {
+				idx int
+				t   reference.Target
+			}
+			groups := map[string][]el{}
+			for _, t := range ts {
+				if len(t.Addr) > 1 {
+					if is, ok := t.Addr[len(t.Addr)-1].(lang.IndexStep); ok && is.Key.Type() == cty.Number && t.RangePtr != nil {
+						f, _ := is.Key.AsBigFloat().Int64()
+						key := t.Addr[:len(t.Addr)-1].String()
+						groups[key] = append(groups[key], el{int(f), t})
+					}
+				}
+				walk(t.NestedTargets)
+			}
+			for parent, els := range groups {
+				sort.Slice(els, func(i, j int) bool { return els[i].idx < els[j].idx })
+				r.Evals++
+				if len(els) > 1 {
+					r.Class("indexed-siblings:" + name[strings.Index(name, "."):])
+				}
+				for i, e := range els {
+					if e.idx != i {
+						r.Fail("dual-index-gap", "%s: nested targets of %s have indices that are not 0..n-1: %d at position %d\n%s", name, parent, e.idx, i, clip(text, 1200))
+						break
+					}
+					if i > 0 {
+						a, b := els[i-1].t.RangePtr, e.t.RangePtr
+						// (starts only: JSON elements written in one array share the array's extent, and the
+						// end of the first native element is the recorded finding D21)
+						if b.Start.Byte < a.Start.Byte || (name == "main.tf" && b.Start.Byte == a.Start.Byte) {
+							r.Fail("dual-index-not-source-order", "%s: %s[%d] (%d-%d) does not follow %s[%d] (%d-%d) in the file: list index is not source order\n%s", name, parent, i, b.Start.Byte, b.End.Byte, parent, i-1, a.Start.Byte, a.End.Byte, clip(text, 1500))
+						}
+					}
+					// the element's gb attribute is the one written in the i-th block
+					for _, nt := range e.t.NestedTargets {
+						if len(nt.Addr) > 0 && nt.RangePtr != nil && nt.RangePtr.End.Byte <= len(text) && nt.RangePtr.Start.Byte >= 0 && nt.RangePtr.Start.Byte < nt.RangePtr.End.Byte {
+							if as, ok := nt.Addr[len(nt.Addr)-1].(lang.AttrStep); ok && as.Name == "gb" && strings.HasSuffix(parent, ".disk") {
+								if got := text[nt.RangePtr.Start.Byte:nt.RangePtr.End.Byte]; !strings.Contains(got, strconv.Itoa(10+i)) {
+									r.Fail("dual-index-wrong-element", "%s: %s[%d].gb covers %q, but the %d-th disk block written declares gb = %d\n%s", name, parent, i, got, i, 10+i, clip(text, 1500))
+								}
+							}
+						}
+					}
+				}
+			}
+		}
+		walk(w.Reader.Ctx("p0").ReferenceTargets)
+	}
+	r.NonTrivial = len(r.Classes) > 0
+	return r
 }
 
 func typeStr(t cty.Type) string {
@@ -112,6 +192,9 @@ func checkNested(r *Result, t reference.Target, fname string, strictInside bool,
 }
 
 func checkC09(c C09Case) Result {
+	if c.Dual != nil {
+		return checkC09Dual(*c.Dual)
+	}
 	var r Result
 	w, pi := SafeBuild(func() *world.World { return world.Build(c.World) })
 	if pi != nil {
